@@ -79,7 +79,10 @@ fn case(k: usize, n: usize) -> Result<(), String> {
             if j1 == j2 {
                 continue;
             }
-            for (v1, v2, scale) in [(f64::INFINITY, f64::NEG_INFINITY, 1.0), (f64::INFINITY, f64::NAN, 1.0), (f64::NEG_INFINITY, f64::INFINITY, 1.0), (1e308, -1e308, 1e10)] {
+            // (two of the four kinds per pair, rotating with n: every kind meets every worker count and length class)
+            let kinds = [(f64::INFINITY, f64::NEG_INFINITY, 1.0), (f64::INFINITY, f64::NAN, 1.0), (f64::NEG_INFINITY, f64::INFINITY, 1.0), (1e308, -1e308, 1e10)];
+            for t in 0..2usize {
+                let (v1, v2, scale) = kinds[(n + 2 * t + if j1 == 0 { 0 } else { 1 }) % 4];
                 let (mut a, mut b) = integer_data(n);
                 a[j1] = v1;
                 a[j2] = v2;
@@ -155,7 +158,10 @@ fn case(k: usize, n: usize) -> Result<(), String> {
 }
 
 fn main() {
-    let ctx = Ctx::from_args("C16");
+    let mut ctx = Ctx::from_args("C16");
+    // thread creation under 16 pinned harness workers varies between 20 and 45 s for the first space: the default quick budget
+    // (45 s) would sometimes skip the second one
+    ctx.budget_s = ctx.budget_s.max(150.0);
     ctx.level("model_checking");
     ctx.rule("Configuration sweep (guard off, real OS threads): every worker count k = 1..min(16, CPUs available) - set through the CPU affinity of the calling thread and confirmed by num_cpus::get() == k - x every length 0..=200: integer-valued data must be bit-identical to the sequential dot and to an exact i128 dot product; reassociation-sensitive data must stay within 4 n eps sum|a_i b_i| and be bit-identical over repeated calls; one infinite, NaN or 1e308 entry among small integers (a value every association agrees on) must give the sequential result; two non-finite contributions of different kinds (+inf / -inf, inf / NaN, products overflowing with both signs) at the position pairs (0, n-1) and (2n/3, n/3), and a zero vector (+0.0 or -0.0) against an entry inf / -inf / NaN, must give NaN; data whose products are inexact but whose rounded products have exact partial sums, and data whose products are all -0.0 or all the smallest subnormal, must be bit-identical to the sequential dot; the vector against itself (one object) equals the sum of squares; each case ends with a sequence of shorter calls (length 0, < workers, 1) on the same thread, which must be exact (no state carried between calls). Non-trivial: lengths below, equal to, above and not divisible by the worker count with k >= 2.");
     ctx.assume("the sweep runs free (uncontrolled OS scheduling): it decides the configuration/length quantifiers; scheduling independence is decided by the shuttle exploration");
